@@ -638,7 +638,7 @@ fn main() {
             let mut pool: Vec<PD> = vec![];
             for (idx, (name, code)) in cps.iter().enumerate() {
                 let n = code.len();
-                let take = if thorough { true } else { n <= 8 || (n <= 10 && idx % 3 == (seed % 3) as usize) || idx % 40 == (seed % 40) as usize };
+                let take = if thorough { true } else { n <= 10 || idx % 8 == (seed % 8) as usize };
                 if !take { continue; }
                 let pd = pd_of_code(code);
                 // (names such as L10a10 are not accepted by Link::is_valid_name - its pattern [1-9]+ excludes the
@@ -652,7 +652,7 @@ fn main() {
                 pool.push(pd);
             }
             // 2. braid closures
-            let nb = if thorough { 6000 } else { 500 };
+            let nb = if thorough { 8000 } else { 2000 };
             for k in 0..nb {
                 let strands = 2 + r.below(7) as usize;
                 let len = r.below(15) as usize;
@@ -673,7 +673,7 @@ fn main() {
                 }
             }
             // 3. split unions of pool diagrams
-            let nsu = if thorough { 600 } else { 60 };
+            let nsu = if thorough { 1000 } else { 250 };
             for _ in 0..nsu {
                 if pool.len() < 2 { break; }
                 let a = r.pick(&pool).clone();
@@ -684,7 +684,7 @@ fn main() {
             }
             // 4. random valid codes (perfect matchings of the slots; mostly non-planar, all types): exact
             //    correspondence only - the invariance cases are for genuine diagrams
-            let nrv = if thorough { 20000 } else { 2500 };
+            let nrv = if thorough { 60000 } else { 12000 };
             for k in 0..nrv {
                 let n = 1 + r.below(if k % 10 == 0 { 12 } else { 6 }) as usize;
                 let pd = random_valid(&mut r, n, k % 2 == 0);
@@ -699,7 +699,7 @@ fn main() {
                 }
             }
             // 5. malformed stream: labels occurring 1, 3, 4 times; damaged valid codes
-            let nm = if thorough { 20000 } else { 2500 };
+            let nm = if thorough { 60000 } else { 12000 };
             for k in 0..nm {
                 let pd = if k % 2 == 0 || pool.is_empty() { malformed(&mut r) } else { let p = r.pick(&pool).clone(); damaged(&mut r, &p) };
                 let n = pd.len();
